@@ -421,7 +421,17 @@ def _linebox_layout(context, box, index, child, new_children, page_is_empty,
                             break_linebox = True
                             break
                         elif footnote.style['footnote_policy'] == 'block':
-                            abort = break_linebox = True
+                            if page_is_empty:
+                                # Nothing before this block on the page, we
+                                # can't push it: break before the line.
+                                abort, stop, resume_at = _break_line(
+                                    context, box, line, new_children,
+                                    lines_iterator, page_is_empty, index,
+                                    skip_stack, resume_at, absolute_boxes,
+                                    fixed_boxes)
+                            else:
+                                abort = True
+                            break_linebox = True
                             break
             if break_linebox:
                 break
